@@ -426,7 +426,8 @@ pub fn gen_whole(tier: &str, rng: &mut Rng) -> Vec<String> {
         out.push(format!("resp s {} {} - {} MSGS {}", s, ah, end, msgs.iter().map(|m| hexb(m)).collect::<Vec<_>>().join(" ")).trim_end().to_string());
     }
     // client requests: send encoding × accept sets × origins × forged user metadata
-    let origins = ["", "/", "/base", "/a/b"];
+    // origins with a query string too: only the origin's PATH goes in front of the method path (seed C03e)
+    let origins = ["", "/", "/base", "/a/b", "/api?tenant=acme", "/?x=1", "?q", "/a/b/?k=v&z=/pkg.Svc/Other"];
     let metas: Vec<Vec<(&str, &str)>> = vec![
         vec![],
         vec![("x-user", "1")],
